@@ -130,7 +130,7 @@ func zxSameState(a, b zxState) bool {
 // the flush OR the state after it: rows that reflect exactly the inserts up to the recovered
 // offset, each once.
 //
-//zx:harness prop=C02 id=C02.F tier=quick env=fs shard=prev:2,what:2 maxops=40
+//zx:harness prop=C02 id=C02.F tier=quick env=fs shard=prev:2,what:2 maxops=40 thorough.maxops=80
 func zxC02Crash() {
 	zxFSReset()
 	fields := core.Fields{core.PointsField, zxFieldA}
